@@ -242,6 +242,9 @@ def run(run):
                  lambda: ct.array_contract_tree(inputs, output, size, optimize=tuple(lin)), inputs, output, size, "tree")
             call("array_contract_path(explicit linear path)", kind, N,
                  lambda: ct.array_contract_path(inputs, output, size, optimize=list(lin), cache=False), inputs, output, size, "path")
+            call("array_contract_path(explicit linear path as tuple)", kind, N,
+                 lambda: ct.array_contract_path(inputs, output, size, optimize=tuple(lin), cache=False,
+                                                canonicalize=rng.random() < 0.5), inputs, output, size, "path")
             ixs = sorted(size)
             rng.shuffle(ixs)
             if ixs and all(isinstance(x, str) for x in ixs):
@@ -252,6 +255,9 @@ def run(run):
                      "path" if connected_no_scalars(inputs) else "path-valid")
                 call("array_contract_tree(explicit edge path)", kind, N,
                      lambda: ct.array_contract_tree(inputs, output, size, optimize=list(ixs)), inputs, output, size, "tree")
+                call("array_contract_path(explicit edge path as list, canonicalize=False)", kind, N,
+                     lambda: ct.array_contract_path(inputs, output, size, optimize=list(ixs), cache=False, canonicalize=False),
+                     inputs, output, size, "path" if connected_no_scalars(inputs) else "path-valid")
                 call("array_contract_path(explicit edge path as list)", kind, N,
                      lambda: ct.array_contract_path(inputs, output, size, optimize=list(ixs), cache=False), inputs, output, size,
                      "path" if connected_no_scalars(inputs) else "path-valid")
